@@ -14,6 +14,7 @@
 -/
 import ClairModel.Lib.Sm
 import ClairModel.Proofs.IndexerFF
+import ClairModel.Proofs.IndexerHist
 import ClairModel.Proofs.ScanPar
 import ClairModel.Gen.Controller
 
@@ -35,7 +36,8 @@ theorem reachable_inv (sem : Sem) (ops : List Op) : Inv sem (Sm.run (step sem) {
     (fun (wd : World) op h => by
       cases op with
       | config cfg => exact h
-      | index m o d => exact (index_spec sem o wd.cfg m wd.st d h).inv)
+      | index m o d => exact (index_spec sem o wd.cfg m wd.st d h).inv
+      | delete ms => exact Store.inv_deleteManifests ms h)
     ops ({} : World) (inv_empty sem)
 
 /-- A manifest is recorded as indexed by a scanner only if the manifest was
@@ -175,6 +177,22 @@ theorem retry_converges_partial (sem : Sem) (o o' : Oracle) (cfg : Cfg) (m : Man
   intro st1 r
   have hg1 : Good sem cfg st1 := good_index_faulty sem o cfg m st d hg hnc hnew
   exact index_ff_result sem o' cfg m st1 hff hg1
+
+/-- Full strength, through deletion: after an Index call on `m` under ANY
+    oracle — lost replies and failed attempts on an already indexed manifest
+    included, the two cases `retry_converges_partial` has to exclude — deleting
+    the manifest (`Libindex.DeleteManifests`) and indexing it again fault-free
+    returns a nil error and the report of a fault-free run on an empty store,
+    and records it. So the state finding report-clobbered leaves behind is
+    repaired by a delete, and by nothing less. -/
+theorem delete_then_retry_converges (sem : Sem) (o o' : Oracle) (cfg : Cfg) (m : Manifest) (st : Store) (d : Bool)
+    (hg : Good sem cfg st) (hff : FF o') :
+    let st1 := ((index sem o cfg m st d).st.deleteManifests [m])
+    let r := index sem o' cfg m st1 false
+    r.err = none ∧ r.report = some (freshReport sem cfg m) ∧
+    r.st.manifestScanned m cfg.scanners = true ∧ r.st.report? m = some (freshReport sem cfg m) := by
+  intro st1 r
+  exact index_ff_result sem o' cfg m st1 hff (good_delete_after_index sem o cfg m st d hg)
 
 /-- A fault-free Index call on an empty store returns `freshReport`. -/
 theorem fresh_run (sem : Sem) (o : Oracle) (cfg : Cfg) (m : Manifest) (hff : FF o) (hne : cfg.scanners ≠ []) :
